@@ -12,7 +12,7 @@ from harness.core import cfg_text, Machinery
 from harness.drivers import keys as K
 
 KNOWN_DEFECTS = ["ed_no_verify_key", "ed_sig_length", "ecdsa_negative", "alg_not_text"]
-MUTATIONS = ["mut_skip_alg_check", "mut_ignore_data", "mut_ignore_hash", "mut_strip_zeros", "mut_concat_verify"]
+MUTATIONS = ["mut_skip_alg_check", "mut_ignore_data", "mut_ignore_hash", "mut_strip_zeros", "mut_concat_verify", "mut_unsigned_inner"]
 INVS = ["Total", "AcceptsGenuine", "RejectsForged", "InModel"]
 BASE_NAMES = ["ssh-rsa", "rsa-sha2-256", "rsa-sha2-512", "ecdsa-sha2-nistp256", "ecdsa-sha2-nistp384",
               "ecdsa-sha2-nistp521", "ssh-ed25519"]
@@ -98,6 +98,11 @@ class Runner:
             mi = rnd.choice([i for i, m in enumerate(self.msgs) if m])
         msg = self.msgs[mi]
         g = self.genuine(signer, show, stype, alg, mi)
+        if tcls == "inner_sign_dropped":        # needs r or s with the top bit set (about 3 signatures in 4): re-sign
+            for _ in range(40):
+                if K.mpint(g.r)[0] == 0 or K.mpint(g.s)[0] == 0:
+                    break
+                g = K.Genuine(stype, signer.sign_ssh_data(msg, alg).asbytes())
         if tamper_bytes is not None:
             r = tamper_bytes(g)
             if r is None:
@@ -238,7 +243,7 @@ def run(c):
     c.mc("Signatures", cfg_text(constants=consts(KNOWN_DEFECTS), invariants=INVS),
          expect="Total", name="faithful to the pinned tree (all four defects)")
     sens = [(d, "Total") for d in KNOWN_DEFECTS] + [(m, "RejectsForged") for m in MUTATIONS]
-    if c.quick:                   # one toggle per quick run, rotating with the seed; thorough runs all nine
+    if c.quick:                   # one toggle per quick run, rotating with the seed; thorough runs all ten
         sens = [sens[(c.seed + 4) % len(sens)]]
     for d, inv in sens:
         c.mc("Signatures", cfg_text(constants=consts([d]), invariants=INVS), expect=inv, name="sensitivity " + d)
